@@ -1,4 +1,5 @@
 import Proofs.MetaState
+import Proofs.MetaDelete
 
 /-!
   C02 — Links stay symmetric, bounded and atomic through any operation history.
@@ -93,14 +94,23 @@ theorem live_only_relate (sch : Schema) (s : State) (hl : LiveOnly s) (x y : Ins
 theorem live_only_unrelate (sch : Schema) (s : State) (hl : LiveOnly s) (x y : Inst) (r p : String) :
     LiveOnly (unrelate sch s x y r p).1 := unrelate_liveOnly hl x y r p
 
-/-
-  NOT YET PROVED (full statement kept; covered by correspondence and the D predicate `dead-reachable`):
+/-- `MetaClass.delete` of a live instance succeeds and disconnects EVERY link of the deleted instance, so
+    only live instances stay reachable — for schemas in which (kinds, number, phrase) resolve every
+    association to itself in both directions (`SchemaOk`), in states whose links are well-typed -/
+theorem live_only_delete (sch : Schema) (s : State) (hok : SchemaOk sch) (h : Inv sch s) (ht : Typed sch s)
+    (hl : LiveOnly s) (hp : PoolInv s) (x : Inst) (hx : live s x) :
+    (delete sch s x).2 = .ok ∧ LiveOnly (delete sch s x).1 := delete_liveOnly hok h ht hl hp hx
 
-  theorem live_only_delete (sch : Schema) (s : State) (hs : SchemaOk sch) (ht : Typed sch s) (h : Inv sch s)
-      (hl : LiveOnly s) (x : Inst) : LiveOnly (delete sch s x).1 ∧ (delete sch s x).2 ≠ .unrelateExc
-  -- i.e. `MetaClass.delete` disconnects every link of the deleted instance, for schemas in which
-  -- (rel id, kinds, phrase) determine the association and direction.
--/
+/-- every state reachable by ANY history in the statement's domain (relate applied to live instances;
+    everything else unrestricted, incl. rejected calls and repeated deletes) satisfies all invariants at
+    once: symmetric, duplicate-free, bounded navigation; well-typed links; only live instances reachable;
+    duplicate-free pools -/
+theorem all_invariants_reachable (sch : Schema) (hok : SchemaOk sch) (ops : List Op) (hd : Dom sch init ops) :
+    AllInv sch (run sch ops) := run_allInv_from hok ops init (allInv_init sch) hd
+
+theorem live_only_reachable (sch : Schema) (hok : SchemaOk sch) (ops : List Op) (hd : Dom sch init ops) :
+    ∀ i x y, y ∈ ((run sch ops).links i).src x → live (run sch ops) x ∧ live (run sch ops) y :=
+  (all_invariants_reachable sch hok ops hd).liveOnly
 
 /-! non-vacuity: a concrete history over a 1:1 schema reaches a state with one link; the rejected relate
     of a second partner returns RelateException and leaves that state unchanged -/
@@ -114,5 +124,14 @@ example : ((run sch11 hist).links 0).tgt 0 = [1] ∧ ((run sch11 hist).links 0).
     (unrelate sch11 (run sch11 hist) 0 2 "R1" "").2 = .unrelateExc ∧
     (relate sch11 (run sch11 hist) 0 2 "R9" "").2 = .unknownLink ∧
     live (run sch11 hist) 0 ∧ ¬ live (delete sch11 (run sch11 hist) 0).1 0 := by decide
+/-- the 1:1 schema is `SchemaOk` and the history lies in the domain, so `all_invariants_reachable` applies -/
+example : SchemaOk sch11 ∧ Dom sch11 init hist := by
+  refine ⟨?_, ?_⟩
+  · intro i a h
+    match i, h with
+    | 0, h => simp [sch11] at h; subst h; decide
+    | i + 1, h => simp [sch11] at h
+  · simp only [hist, Dom, OpOk, and_true, true_and]
+    decide
 
 end PyxProps.C02
